@@ -10,14 +10,14 @@ ID = "C06"
 PROP_FILES = ["Properties/C06.v"]
 THEOREMS = ["C06_new_is_rowwise", "C06_selection_commutes", "C06_state_unchanged"]
 ASSUMPTIONS = ["rational arithmetic in the model, float64 in the implementation (tolerance 1e-9 relative)",
-               "stateful transforms in the model: center, scale/standardize (bs/poly are covered by C14)"]
+               "stateful transforms: center, scale/standardize, poly, bs (their contracts are C14's business)"]
 RULE = ("random formulas with nested/interacting stateful transforms, C/T/S codings, levels=, ordered "
         "categoricals and group terms; for each design: every single row (up to 12), random subsets, "
         "permutations and repetitions of the training rows; non-trivial = design built; distinct = (formula, frame head, multisets)")
 EXHAUSTIVE = {"quick": False, "thorough": False}
 
 NUM = ["x", "z", "w", "center(x)", "scale(z)", "standardize(w)", "scale(center(z))", "center(x + w)", "I(x + 1)",
-       "center(x):scale(z)"]
+       "center(x):scale(z)", "poly(x, 2)", "poly(z, 3)", "poly(w, 2, raw=True)", "bs(x, df=4)", "bs(z, df=5, intercept=True)"]
 CAT = ["f", "g", "h", "o", "c", "C(k)", "C(f, Sum)", "T(g, 'q')", "S(h)", "C(f, levels=lv)", "C(o)",
        "C(g, Treatment('q'))", "binary(f)", "B(g, 'q')", "C(c, Sum('mm'))"]
 
